@@ -16,6 +16,12 @@
 // may be a BUNDLE (the option is "CA certificate(s)"): CA one together with authorities that issued nothing, CA one
 // first / in the middle / last; a peer chaining to CA one chains to the configured CA wherever it stands in the bundle.
 //
+// The upstream address may be written in every spelling the client accepts for the carrier (https:// or wss://,
+// http:// or ws://, udp:// or udp4://): the spelling changes nothing. An endpoint's OWN certificate file may carry
+// a chain (the leaf followed by the CA that issued it, or a leaf issued by an intermediate authority of that CA
+// followed by the intermediate): what an endpoint presents never adds to what it trusts in its peers, and a server
+// certificate that reaches the configured CA through an intermediate it sends along chains to the configured CA.
+//
 // Observed: a logical connection is opened through the real client command (which forces
 // Upstreams.Connect against the real server command); "admitted" = the channel's recording target
 // accepted a connection (and the probe byte written by the application arrived there), "refused" = the
@@ -37,6 +43,7 @@ import (
 	"path/filepath"
 	"strings"
 	"sync"
+	"sync/atomic"
 	"testing"
 
 	"github.com/bokysan/socketace/v2/internal/client/upstream"
@@ -73,6 +80,32 @@ type c05Case struct {
 	// string was turned into an address ("" = flag/ParseAddress, "json" = configuration file value)
 	SecretVar string `json:"secret_variant,omitempty"`
 	Parse     string `json:"client_address_parsed_via,omitempty"`
+	// Spelling: the scheme the upstream address is written with, "" = the usual one of the carrier (https, http, udp),
+	// else the other spelling the client accepts for the same carrier (wss, ws, udp4)
+	Spelling string `json:"upstream_scheme,omitempty"`
+	// ServerChain / ClientChain: what the endpoint's own certificate holds: "" = the leaf alone (issued by the CA itself),
+	// "leaf+issuer" = that leaf followed by the CA that issued it, "via-intermediate" = a leaf issued by an intermediate
+	// authority of the same CA, followed by the intermediate. ServerCertBy / ClientCertBy: "" = inline (certificate),
+	// "file" = certificateFile
+	ServerChain  string `json:"server_certificate_holds,omitempty"`
+	ClientChain  string `json:"client_certificate_holds,omitempty"`
+	ServerCertBy string `json:"server_certificate_given_by,omitempty"`
+	ClientCertBy string `json:"client_certificate_given_by,omitempty"`
+}
+
+// altSpelling: the other accepted spelling of the carrier's upstream address ("" = there is none that works with the
+// fixture: tcp has one spelling, dns+udp:// is accepted by the parser but served by no upstream, udp6 needs an
+// IPv6 endpoint)
+func altSpelling(carrier string) string {
+	switch carrier {
+	case "wss":
+		return "wss"
+	case "ws+starttls":
+		return "ws"
+	case "udp+starttls", secretCarrier:
+		return "udp4"
+	}
+	return ""
 }
 
 // unspecified: the property does not say whether this aspect admits or refuses
@@ -161,6 +194,10 @@ func clientReason(c *c05Case) string {
 		}
 		return unspecified
 	}
+	if c.ClientCert == "own" && c.ClientChain == "via-intermediate" {
+		// "signed by its CA" through an intermediate the client sends along: the statement does not say
+		return unspecified
+	}
 	if c.ClientCert == "own" {
 		return ""
 	}
@@ -173,6 +210,22 @@ func anchorSuffix(side, v string) string {
 		return ""
 	}
 	return ":" + side + "-ca=" + v
+}
+
+// shapeSuffix names a non-default spelling of the upstream address and non-default contents of the endpoints' own
+// certificates (part of the signature: a different defect class)
+func shapeSuffix(c *c05Case) string {
+	s := ""
+	if c.Spelling != "" {
+		s += ":scheme=" + c.Spelling
+	}
+	if c.ServerChain != "" {
+		s += ":server-cert=" + c.ServerChain
+	}
+	if c.ClientChain != "" {
+		s += ":client-cert=" + c.ClientChain
+	}
+	return s
 }
 
 // model returns the expected admission and the signature fragment describing the configuration class.
@@ -196,12 +249,14 @@ func model(c *c05Case) (admit bool, class string, specified bool) {
 		if keyBad {
 			parts = append(parts, "clientcert="+kr+":require-client-cert"+anchorSuffix("server", c.ServerCA))
 		}
-		return false, strings.Join(parts, "+"), true
+		return false, strings.Join(parts, "+") + shapeSuffix(c), true
 	}
 	if (!c.Insecure && cr == unspecified) || kr == unspecified {
 		return false, "unspecified" + anchorSuffix("server", c.ServerCA) + anchorSuffix("client", c.ClientCA), false
 	}
-	defer func() { class += anchorSuffix("server", c.ServerCA) + anchorSuffix("client", c.ClientCA) }()
+	defer func() {
+		class += anchorSuffix("server", c.ServerCA) + anchorSuffix("client", c.ClientCA) + shapeSuffix(c)
+	}()
 	// acceptable configuration: name its least ordinary aspect
 	switch {
 	case c.Insecure && cr == unspecified:
@@ -239,6 +294,12 @@ func key(c *c05Case) string {
 	}
 	if c.SecretVar != "" || c.Parse != "" {
 		k += "/" + c.SecretVar + "/" + c.Parse
+	}
+	if c.Spelling != "" {
+		k += "/scheme=" + c.Spelling
+	}
+	if c.ServerChain != "" || c.ClientChain != "" {
+		k += fmt.Sprintf("/server-cert=%s,%s/client-cert=%s,%s", c.ServerChain, c.ServerCertBy, c.ClientChain, c.ClientCertBy)
 	}
 	return k
 }
@@ -343,9 +404,56 @@ func parseAddress(via, s string) (addr.ProtoAddress, error) {
 	return *pa, nil
 }
 
+// ownMaterial: the certificate and key an endpoint is configured with. role "server": name is a server certificate
+// of the matrix; role "client": own / foreign.
+func ownMaterial(role, name, chain string) (e2e.CertPair, error) {
+	pk, ch := e2e.GetC05PKI(), e2e.GetC05ChainPKI()
+	direct, via := pk.Server, ch.Server
+	root, inter := pk.CA1, ch.Inter1
+	if role == "client" {
+		direct, via = pk.Client, ch.Client
+	}
+	if name == "Untrusted" || name == "foreign" {
+		root, inter = pk.CA2, ch.Inter2
+	}
+	var cp e2e.CertPair
+	var ok bool
+	switch chain {
+	case "":
+		cp, ok = direct[name]
+	case "leaf+issuer":
+		cp, ok = direct[name]
+		cp.Cert += root
+	case "via-intermediate":
+		cp, ok = via[name]
+		cp.Cert += inter
+	}
+	if !ok {
+		return cp, fmt.Errorf("no %s certificate %q with contents %q", role, name, chain)
+	}
+	return cp, nil
+}
+
+var certFileSeq int64
+
+// certToFile moves an inline certificate into a file of the child's private working directory (certificateFile)
+func certToFile(cfg *cert.Config) {
+	wd, err := os.Getwd()
+	if err != nil || cfg.Certificate == "" {
+		return
+	}
+	f := filepath.Join(wd, fmt.Sprintf("c05-own-cert-%d-%d.pem", os.Getpid(), atomic.AddInt64(&certFileSeq, 1)))
+	if os.WriteFile(f, []byte(cfg.Certificate), 0644) == nil {
+		cfg.Certificate, cfg.CertificateFile = "", f
+	}
+}
+
 func start(c *c05Case) (*e2e.Pair, error) {
 	pk := e2e.GetC05PKI()
-	sc := pk.Server[c.Cert]
+	sc, err := ownMaterial("server", c.Cert, c.ServerChain)
+	if err != nil {
+		return nil, fmt.Errorf("harness: %v", err)
+	}
 	o := e2e.Options{
 		Carrier: c.Carrier, ServerCert: &sc, ServerCA: pk.CA1, ClientCA: pk.CA1, ClientInsecure: c.Insecure,
 		RequireClient: c.Require, StrictVerify: true, Domain: e2e.C05Domain, Tag: "c",
@@ -363,8 +471,29 @@ func start(c *c05Case) (*e2e.Pair, error) {
 			return nil, fmt.Errorf("harness: trust anchors: %v", err)
 		}
 	}
-	o.ServerCfgEdit = func(s *cert.ServerConfig) { anchors(c.ServerCA, &s.Config) }
-	o.ClientCfgEdit = func(k *cert.ClientConfig) { anchors(c.ClientCA, &k.Config) }
+	o.ServerCfgEdit = func(s *cert.ServerConfig) {
+		anchors(c.ServerCA, &s.Config)
+		if c.ServerCertBy == "file" {
+			certToFile(&s.Config)
+		}
+	}
+	o.ClientCfgEdit = func(k *cert.ClientConfig) {
+		anchors(c.ClientCA, &k.Config)
+		if c.ClientCertBy == "file" {
+			certToFile(&k.Config)
+		}
+	}
+	udpSpelled := false
+	if c.Spelling != "" {
+		if c.Kind != "tls" || c.Spelling != altSpelling(c.Carrier) {
+			return nil, fmt.Errorf("harness: no spelling %q of carrier %s", c.Spelling, c.Carrier)
+		}
+		if strings.HasPrefix(o.Carrier, "udp") {
+			udpSpelled = true // (the fixture writes udp://: the client is attached by hand below)
+		} else {
+			o.UpScheme = c.Spelling
+		}
+	}
 	if c.Host == "localhost" {
 		o.UpstreamHost = "localhost"
 	}
@@ -388,30 +517,55 @@ func start(c *c05Case) (*e2e.Pair, error) {
 			o.Before = []upstream.Upstream{&upstream.Http{Address: addr.MustParseAddress("http://" + dead + "/ws/all")}}
 		}
 	}
-	if c.ClientCert == "foreign-forced" {
+	forced := c.ClientCert == "foreign-forced"
+	var cc e2e.CertPair
+	if c.ClientCert != "none" {
+		name := c.ClientCert
+		if forced {
+			name = "foreign"
+		}
+		if cc, err = ownMaterial("client", name, c.ClientChain); err != nil {
+			return nil, fmt.Errorf("harness: %v", err)
+		}
+		if !forced {
+			o.ClientCert = &cc
+		}
+	}
+	if forced || udpSpelled {
+		// the client is attached by hand: with the real upstream behind a certificate-selection callback, and / or
+		// with the upstream that the client's own parser makes of the address in the other spelling
 		o.NoClient = true
 		p, err := e2e.Start(o)
 		if err != nil {
 			return nil, err
 		}
-		fc := pk.Client["foreign"]
-		crt, err := tls.X509KeyPair([]byte(fc.Cert), []byte(fc.Key))
-		if err != nil {
-			p.Close()
-			return nil, err
+		up := p.Up
+		if udpSpelled {
+			var ul upstream.Upstreams
+			if err := ul.UnmarshalFlag(c.Spelling + "://" + strings.TrimPrefix(p.UpURL, "udp://")); err != nil || len(ul.Data) != 1 {
+				p.Close()
+				return nil, fmt.Errorf("harness: %s spelling of %s: %v", c.Spelling, p.UpURL, err)
+			}
+			up = ul.Data[0]
 		}
 		ccfg := cert.ClientConfig{InsecureSkipVerify: c.Insecure}
 		ccfg.CaCertificate = pk.CA1
+		if forced {
+			crt, err := tls.X509KeyPair([]byte(cc.Cert), []byte(cc.Key))
+			if err != nil {
+				p.Close()
+				return nil, fmt.Errorf("harness: %v", err)
+			}
+			up = &forcedUp{Upstream: up, crt: &crt}
+		} else if o.ClientCert != nil {
+			ccfg.Certificate, ccfg.PrivateKey = cc.Cert, cc.Key
+		}
 		o.ClientCfgEdit(&ccfg)
-		if err := p.C05AttachClient([]upstream.Upstream{&forcedUp{Upstream: p.Up, crt: &crt}}, ccfg, false); err != nil {
+		if err := p.C05AttachClient([]upstream.Upstream{up}, ccfg, false); err != nil {
 			p.Close()
 			return nil, err
 		}
 		return p, nil
-	}
-	if c.ClientCert != "none" {
-		cc := pk.Client[c.ClientCert]
-		o.ClientCert = &cc
 	}
 	if c.Kind != "secret" {
 		return e2e.Start(o)
@@ -626,6 +780,15 @@ func runCase(rec *vcommon.Rec, st *runState, c *c05Case) {
 		rec.Seen("pair(carrier,host)", lab+"|"+c.Host)
 		rec.Seen("pair(server_cert,insecure)", fmt.Sprintf("%s|%v", c.Cert, c.Insecure))
 		rec.Seen("pair(server_cert,host)", c.Cert+"|"+c.Host)
+		if c.Spelling != "" {
+			rec.Seen("tuple(carrier,upstream_scheme,server_cert,insecure,client_cert,require)", fmt.Sprintf("%s|%s|%s|%v|%s|%v", lab, c.Spelling, c.Cert, c.Insecure, c.ClientCert, c.Require))
+			rec.Stat("cases_with_the_other_spelling_of_the_upstream_address", 1)
+		}
+		if c.ServerChain != "" || c.ClientChain != "" {
+			rec.Seen("tuple(carrier,server_cert,holds,given_by,client_cert,holds,given_by,insecure,require)", fmt.Sprintf("%s|%s|%s|%s|%s|%s|%s|%v|%v",
+				lab, c.Cert, c.ServerChain, c.ServerCertBy, c.ClientCert, c.ClientChain, c.ClientCertBy, c.Insecure, c.Require))
+			rec.Stat("cases_with_a_chain_in_an_own_certificate", 1)
+		}
 		if c.Carrier == secretCarrier {
 			rec.Seen("secret_with_certificates(relation,server_cert,insecure,client_cert,require)", fmt.Sprintf("%s|%s|%v|%s|%v", c.SecretRel, c.Cert, c.Insecure, c.ClientCert, c.Require))
 		}
@@ -793,6 +956,9 @@ func quickTLS(seed int64, extra int) []*c05Case {
 		if best == nil {
 			break
 		}
+		if alt := altSpelling(best.Carrier); alt != "" && rng.Intn(2) == 1 {
+			best.Spelling = alt // (seeded: the pick is written in the carrier's other spelling)
+		}
 		take(best) // gain 0 once every pair is covered: the shuffled order makes it a seeded random pick
 	}
 	return out
@@ -918,6 +1084,139 @@ func secretCases(seed int64) []*c05Case {
 	return append(out, same...)
 }
 
+// ---- the other spelling of the upstream address -----------------------------------------------------
+
+// spelledAll: the whole matrix once more on every carrier whose upstream address has a second accepted spelling
+func spelledAll() []*c05Case {
+	var out []*c05Case
+	for _, c := range allTLS() {
+		if alt := altSpelling(c.Carrier); alt != "" {
+			c.Spelling = alt
+			out = append(out, c)
+		}
+	}
+	return out
+}
+
+// spelledCore: per such carrier the base configuration and the single deviations, in the other spelling. (The
+// machine's trust store holds the foreign CA, so "Untrusted" is a server that the machine trusts and the client must not.)
+func spelledCore() []*c05Case {
+	var out []*c05Case
+	for _, car := range carriers {
+		alt := altSpelling(car)
+		if alt == "" {
+			continue
+		}
+		hs := hostsOf(car)
+		add := func(ce string, ins bool, cc string, req bool, h string) {
+			out = append(out, &c05Case{Kind: "tls", Carrier: car, Cert: ce, Insecure: ins, ClientCert: cc, Require: req, Host: h, Spelling: alt})
+		}
+		for _, h := range hs {
+			add("Good", false, "none", false, h)
+		}
+		add("Untrusted", false, "none", false, hs[0])
+		add("WrongHost", false, "none", false, hs[0])
+		add("Untrusted", true, "none", false, hs[0])
+		add("Good", false, "own", true, hs[0])
+		add("Good", false, "none", true, hs[0])
+		add("Good", false, "foreign-forced", true, hs[0])
+	}
+	return out
+}
+
+// ---- own certificates that carry a chain -------------------------------------------------------------
+
+var clientChains = map[string][]string{
+	"none":           {""},
+	"own":            {"", "leaf+issuer"}, // (own through an intermediate: not decided by the property, left out)
+	"foreign":        {"", "leaf+issuer", "via-intermediate"},
+	"foreign-forced": {"", "leaf+issuer", "via-intermediate"},
+}
+
+// chainAll: contents of the server's own certificate x contents of the client's own certificate (not both the leaf
+// alone) x server certificate {Good, Untrusted} x insecure x client certificate x require, on the first host spelling
+// of every carrier; a seeded half of the chains is given by file (certificateFile). The issuer that comes with
+// "Untrusted" / "foreign" material is the foreign CA (or its intermediate): the peers "foreign" / "Untrusted" are
+// certified by exactly that issuer.
+func chainAll(seed int64) []*c05Case {
+	rng := vcommon.NewRand(seed, "c05/chains")
+	var out []*c05Case
+	for _, car := range carriers {
+		for _, sch := range []string{"", "leaf+issuer", "via-intermediate"} {
+			for _, ce := range []string{"Good", "Untrusted"} {
+				for _, ins := range []bool{false, true} {
+					for _, cc := range clientCerts {
+						for _, cch := range clientChains[cc] {
+							for _, req := range []bool{false, true} {
+								if sch == "" && cch == "" {
+									continue
+								}
+								c := &c05Case{Kind: "tls", Carrier: car, Cert: ce, Insecure: ins, ClientCert: cc, Require: req,
+									Host: hostsOf(car)[0], ServerChain: sch, ClientChain: cch}
+								if sch != "" && rng.Intn(2) == 1 {
+									c.ServerCertBy = "file"
+								}
+								if cch != "" && cc != "foreign-forced" && rng.Intn(2) == 1 {
+									c.ClientCertBy = "file"
+								}
+								out = append(out, c)
+							}
+						}
+					}
+				}
+			}
+		}
+	}
+	return out
+}
+
+// chainCore: per carrier, each kind of chain once with a peer it has to let in, and the two configurations in which
+// the issuer that an endpoint carries along with its own certificate is NOT the CA it is configured to trust, with a
+// peer certified by that issuer (which has to stay out).
+func chainCore() []*c05Case {
+	var out []*c05Case
+	for _, car := range carriers {
+		h := hostsOf(car)[0]
+		add := func(ce, sch, sby string, ins bool, cc, cch, cby string, req bool) {
+			out = append(out, &c05Case{Kind: "tls", Carrier: car, Cert: ce, Insecure: ins, ClientCert: cc, Require: req, Host: h,
+				ServerChain: sch, ServerCertBy: sby, ClientChain: cch, ClientCertBy: cby})
+		}
+		add("Good", "leaf+issuer", "file", false, "none", "", "", false)
+		add("Good", "via-intermediate", "", false, "none", "", "", false)
+		add("Untrusted", "via-intermediate", "file", false, "none", "", "", false)
+		add("Good", "", "", false, "own", "leaf+issuer", "file", true)
+		// server: certificate file = leaf + the foreign CA that issued it, configured CA = CA one, requires client certificates;
+		// the client runs insecure (so that it is the server's decision that is observed) and holds a foreign-CA certificate
+		add("Untrusted", "leaf+issuer", "file", true, "foreign", "", "", true)
+		// client: certificate file = leaf + the foreign CA that issued it, configured CA = CA one; server of the foreign CA
+		add("Untrusted", "", "", false, "foreign", "leaf+issuer", "file", false)
+	}
+	return out
+}
+
+// quickChains = chainCore + n seeded picks of chainAll
+func quickChains(seed int64, n int) []*c05Case {
+	out := chainCore()
+	chosen := map[string]bool{}
+	for _, c := range out {
+		chosen[key(c)] = true
+	}
+	all := chainAll(seed)
+	rng := vcommon.NewRand(seed, "c05/chain-picks")
+	rng.Shuffle(len(all), func(i, j int) { all[i], all[j] = all[j], all[i] })
+	for _, c := range all {
+		if n == 0 {
+			break
+		}
+		if !chosen[key(c)] {
+			chosen[key(c)] = true
+			out = append(out, c)
+			n--
+		}
+	}
+	return out
+}
+
 // ---- trust anchors: CA given by file, or not given at all -----------------------------------------
 
 var anchorCombos = [][2]string{{"none", ""}, {"file", ""}, {"", "none"}, {"", "file"}, {"none", "none"}, {"file", "file"},
@@ -1040,9 +1339,13 @@ func TestVerifC05(t *testing.T) {
 			}
 		}
 		tls = append(tls, anchorAll()...)
+		tls = append(tls, spelledAll()...)
+		tls = append(tls, chainAll(rec.Seed())...)
 	} else {
 		tls = quickTLS(rec.Seed(), 100)
 		tls = append(tls, quickAnchors(rec.Seed(), 30)...)
+		tls = append(tls, spelledCore()...)
+		tls = append(tls, quickChains(rec.Seed(), 20)...)
 	}
 	fillSecrets(tls, rec.Seed())
 	if v := os.Getenv("VERIF_CARRIERS"); v != "" {
